@@ -7,6 +7,7 @@ CONSTANTS
   Sigs = {"TERM", "INT", "STOP", "CONT"}
   JobsOpts = {"", "-l", "-p"}
   KillLNums = {0, 15, 393}
+  MonCmds = {}
   FgSlots = {3}
   StartWith = "none"
 VIEW view
